@@ -143,12 +143,22 @@ def _get_exception_info(exception_obj):
         _SAVEFRAME_LOGGER.warning(
             "Error while formatting the traceback. Error: %a", err)
         tb = "Traceback couldn't be formatted"
+    # The exception object is saved as it is only if it can be pickled (its
+    # arguments may hold anything); otherwise the whole dump would fail.
+    try:
+        pickle.dumps(exception_obj, protocol=PICKLE_PROTOCOL)
+        exception_object = exception_obj
+    except Exception as err:
+        _SAVEFRAME_LOGGER.warning(
+            "Cannot pickle the exception object: %a. Error: %a. Skipping it "
+            "and continuing.", exception_obj, err)
+        exception_object = "Exception object not pickleable"
     exception_info = ExceptionInfo(
         exception_string=str(exception_obj),
         exception_full_string=f'{exception_obj.__class__.__name__}: {exception_obj}',
         exception_class_name=exception_obj.__class__.__name__,
         exception_class_qualname=exception_obj.__class__.__qualname__,
-        exception_object=exception_obj,
+        exception_object=exception_object,
         traceback=tb
     )
     return exception_info
@@ -552,8 +562,10 @@ def _save_frames_and_exception_info_to_file(
     _SAVEFRAME_LOGGER.info("Getting exception metadata info.")
     frames_and_exception_info.update(_get_exception_info(exception_obj).__dict__)
     _SAVEFRAME_LOGGER.info("Saving the complete data in the file: %a", filename)
+    # Serialize first: a failure here must not truncate an existing file.
+    pickled_data = pickle.dumps(frames_and_exception_info, protocol=PICKLE_PROTOCOL)
     with _open_file(filename, 'wb') as f:
-        pickle.dump(frames_and_exception_info, f, protocol=PICKLE_PROTOCOL)
+        f.write(pickled_data)
     _SAVEFRAME_LOGGER.info("Done!!")
 
 
